@@ -22,6 +22,7 @@ func checkC16(c *Ctx, r *Report) {
 	checkRowSize(c, r)
 	checkReversal(c, r)
 	checkPairedSlices(c, r)
+	checkWholeOps(c, r)
 	r.Note("decided: the single-bit operations, per-word mask transitions, argument guards, word-geometry formulae, unconditional bit reversal in the 180-degree rotations and paired-slice loop bounds. Not decided: the model equivalence the property states over operation histories (rotation realignment shifts, GetNextSet/Unset scanning, growth) — run-time by nature")
 }
 
@@ -785,5 +786,193 @@ func foldArgGuards(c *Ctx, r *Report, rule, rel, fn, key string, n int, domain [
 		r.Undecided(rule, key, c.pos(fd.Pos()), bad[1:])
 	} else {
 		r.Check(bad == "", rule, key, c.pos(fd.Pos()), bad)
+	}
+}
+
+// S-WHOLE: whole operations folded (constant propagation with bounded loop unrolling over a small word store)
+// against the bit-level model
+func checkWholeOps(c *Ctx, r *Report) {
+	r.Rule("S-WHOLE", "BitArray.SetRange (every 0 <= start <= end <= 70, the empty range included), BitArray.Reverse (sizes 1..70), BitMatrix.SetRegion (rectangles straddling one, two and three storage words) and BitMatrix.Rotate180 (widths around the 32/64/96-bit word boundaries, heights 1..4) are folded as whole functions on a pre-filled word store and compared bit by bit with the model", 4)
+	pattern := func(i int64) bool { return (i*7+i/3)%5 < 2 }
+	ext := func(m *wordModel, p *packages.Package, width, height, rowSize, size, nwords int64) *rpf {
+		h := m.hooks(p, width, height, rowSize, size, nwords)
+		h.unroll = 4096
+		baseSel, baseCall, baseSt := h.selHook, h.callHook, h.stHook
+		h.selHook = func(x *rpf, sel *ast.SelectorExpr) (*Val, bool) {
+			if sel.Sel.Name == "bits" {
+				out := &Val{K: VList}
+				for i := int64(0); i < nwords; i++ {
+					out.L = append(out.L, &Val{K: VInt, I: int64(m.words[i]), T: types.Typ[types.Uint32]})
+				}
+				return out, true
+			}
+			return baseSel(x, sel)
+		}
+		h.callHook = func(x *rpf, call *ast.CallExpr, callee types.Object) (*Val, bool) {
+			if f, ok := callee.(*types.Func); ok && f.Pkg() != nil && f.Pkg().Path() == "math/bits" && f.Name() == "Reverse32" {
+				v := x.expr(call.Args[0])
+				if !v.isInt() {
+					rpfFail("Reverse32 of a non-integer")
+				}
+				return &Val{K: VInt, I: int64(bits.Reverse32(uint32(v.I))), T: types.Typ[types.Uint32]}, true
+			}
+			return baseCall(x, call, callee)
+		}
+		h.stHook = func(x *rpf, lhs ast.Expr, v *Val) bool {
+			if sel, ok := lhs.(*ast.SelectorExpr); ok && sel.Sel.Name == "bits" && v.K == VList {
+				if int64(len(v.L)) != nwords {
+					rpfFail("storage replaced by a slice of %d words, expected %d", len(v.L), nwords)
+				}
+				for i, e := range v.L {
+					m.words[int64(i)] = uint32(e.I)
+				}
+				return true
+			}
+			return baseSt(x, lhs, v)
+		}
+		return h
+	}
+	get := func(m *wordModel, i int64) bool { return m.words[i/32]>>(uint(i)%32)&1 == 1 }
+	// ---- SetRange
+	if fd, p := c.funcDeclOf("", "BitArray.SetRange"); fd != nil {
+		key := "gozxing.BitArray.SetRange/whole"
+		r.Analysed(key)
+		bad := ""
+		const SIZE = 70
+		for start := int64(0); start <= SIZE && bad == ""; start++ {
+			for end := start; end <= SIZE && bad == ""; end++ {
+				m := &wordModel{words: map[int64]uint32{}}
+				for i := int64(0); i < SIZE; i++ {
+					if pattern(i) {
+						m.words[i/32] |= 1 << (uint(i) % 32)
+					}
+				}
+				res, err := c.rpfCall(fd, p, []*Val{vint(start), vint(end)}, ext(m, p, 0, 0, 0, SIZE, 3))
+				if err != nil {
+					bad = fmt.Sprintf("?SetRange(%d,%d): %v", start, end, err)
+					break
+				}
+				if len(res) != 1 || res[0].K != VNil {
+					bad = fmt.Sprintf("SetRange(%d,%d) on a %d-bit array returns an error", start, end, SIZE)
+					break
+				}
+				for i := int64(0); i < 96; i++ {
+					want := (i < SIZE && pattern(i)) || (i >= start && i < end)
+					if get(m, i) != want {
+						bad = fmt.Sprintf("SetRange(%d,%d): bit %d is %v afterwards, expected %v", start, end, i, get(m, i), want)
+						break
+					}
+				}
+			}
+		}
+		reportFold(r, c, "S-WHOLE", key, fd.Pos(), bad)
+	} else {
+		r.AnchorLost("S-WHOLE", "gozxing.BitArray.SetRange/whole", "method not found")
+	}
+	// ---- Reverse
+	if fd, p := c.funcDeclOf("", "BitArray.Reverse"); fd != nil {
+		key := "gozxing.BitArray.Reverse/whole"
+		r.Analysed(key)
+		bad := ""
+		for size := int64(1); size <= 70 && bad == ""; size++ {
+			nw := (size + 31) / 32
+			m := &wordModel{words: map[int64]uint32{}}
+			for i := int64(0); i < size; i++ {
+				if pattern(i) {
+					m.words[i/32] |= 1 << (uint(i) % 32)
+				}
+			}
+			if _, err := c.rpfCall(fd, p, nil, ext(m, p, 0, 0, 0, size, nw)); err != nil {
+				bad = fmt.Sprintf("?Reverse of %d bits: %v", size, err)
+				break
+			}
+			for i := int64(0); i < size; i++ {
+				if get(m, i) != pattern(size-1-i) {
+					bad = fmt.Sprintf("Reverse of a %d-bit array: bit %d is %v, expected the old bit %d = %v", size, i, get(m, i), size-1-i, pattern(size-1-i))
+					break
+				}
+			}
+		}
+		reportFold(r, c, "S-WHOLE", key, fd.Pos(), bad)
+	} else {
+		r.AnchorLost("S-WHOLE", "gozxing.BitArray.Reverse/whole", "method not found")
+	}
+	// ---- SetRegion
+	if fd, p := c.funcDeclOf("", "BitMatrix.SetRegion"); fd != nil {
+		key := "gozxing.BitMatrix.SetRegion/whole"
+		r.Analysed(key)
+		bad := ""
+		const W, H = 130, 3
+		rs := int64((W + 31) / 32)
+		for _, left := range []int64{0, 1, 20, 31, 32, 33, 40, 63} {
+			for _, width := range []int64{1, 2, 12, 31, 32, 33, 34, 44, 60, 66} {
+				for _, top := range []int64{0, 1} {
+					for _, height := range []int64{1, 2} {
+						if left+width > W || top+height > H || bad != "" {
+							continue
+						}
+						m := &wordModel{words: map[int64]uint32{}}
+						res, err := c.rpfCall(fd, p, []*Val{vint(left), vint(top), vint(width), vint(height)}, ext(m, p, W, H, rs, 0, rs*H))
+						if err != nil {
+							bad = fmt.Sprintf("?SetRegion(%d,%d,%d,%d): %v", left, top, width, height, err)
+							continue
+						}
+						if len(res) != 1 || res[0].K != VNil {
+							bad = fmt.Sprintf("SetRegion(%d,%d,%d,%d) inside a %dx%d matrix returns an error", left, top, width, height, W, H)
+							continue
+						}
+						for y := int64(0); y < H && bad == ""; y++ {
+							for x := int64(0); x < rs*32; x++ {
+								got := m.words[y*rs+x/32]>>(uint(x)%32)&1 == 1
+								want := x >= left && x < left+width && y >= top && y < top+height
+								if got != want {
+									bad = fmt.Sprintf("SetRegion(%d,%d,%d,%d): module (%d,%d) is %v afterwards, expected %v", left, top, width, height, x, y, got, want)
+									break
+								}
+							}
+						}
+					}
+				}
+			}
+		}
+		reportFold(r, c, "S-WHOLE", key, fd.Pos(), bad)
+	} else {
+		r.AnchorLost("S-WHOLE", "gozxing.BitMatrix.SetRegion/whole", "method not found")
+	}
+	// ---- Rotate180
+	if fd, p := c.funcDeclOf("", "BitMatrix.Rotate180"); fd != nil {
+		key := "gozxing.BitMatrix.Rotate180/whole"
+		r.Analysed(key)
+		bad := ""
+		for _, w := range []int64{1, 5, 31, 32, 33, 40, 63, 64, 65, 70, 96, 97, 100, 128} {
+			for h := int64(1); h <= 4 && bad == ""; h++ {
+				rs := (w + 31) / 32
+				m := &wordModel{words: map[int64]uint32{}}
+				orig := func(x, y int64) bool { return pattern(y*131 + x) }
+				for y := int64(0); y < h; y++ {
+					for x := int64(0); x < w; x++ {
+						if orig(x, y) {
+							m.words[y*rs+x/32] |= 1 << (uint(x) % 32)
+						}
+					}
+				}
+				if _, err := c.rpfCall(fd, p, nil, ext(m, p, w, h, rs, 0, rs*h)); err != nil {
+					bad = fmt.Sprintf("?Rotate180 of %dx%d: %v", w, h, err)
+					break
+				}
+				for y := int64(0); y < h && bad == ""; y++ {
+					for x := int64(0); x < w; x++ {
+						got := m.words[y*rs+x/32]>>(uint(x)%32)&1 == 1
+						if got != orig(w-1-x, h-1-y) {
+							bad = fmt.Sprintf("Rotate180 of a %dx%d matrix: module (%d,%d) is %v, expected the old module (%d,%d) = %v", w, h, x, y, got, w-1-x, h-1-y, orig(w-1-x, h-1-y))
+							break
+						}
+					}
+				}
+			}
+		}
+		reportFold(r, c, "S-WHOLE", key, fd.Pos(), bad)
+	} else {
+		r.AnchorLost("S-WHOLE", "gozxing.BitMatrix.Rotate180/whole", "method not found")
 	}
 }
